@@ -197,6 +197,7 @@ def run_catalogue(spec0, res):
             return param
         param = write(shown)
         last = None
+        catalogued = set()
         for step in range(int(rng.integers(2, 7))):
             op = str(rng.choice(['iterations', 'read_iterations', 'get_content', 'add_restart',
                                  'iterations']))
@@ -209,6 +210,8 @@ def run_catalogue(spec0, res):
                 continue
             seq.append(f"{op}(skip_last={skip_last})" if op != 'get_content' else op)
             res['observations'] += 1
+            had_file = os.path.exists(os.path.join(param['simpath'], param['simname'],
+                                                   'iterations.txt'))
             try:
                 with common.Quiet():
                     if op == 'iterations':
@@ -238,6 +241,21 @@ def run_catalogue(spec0, res):
                         return
                 res['nontrivial'].append(['get_content'] + tags[:2] + [spec['layout'], spec['grouped']])
                 continue
+            # ---- which restarts may appear: everything catalogued before plus the
+            # completed ones (all but the last when skip_last=True)
+            allowed = catalogued | set(range(shown if not skip_last else shown - 1))
+            if op == 'read_iterations' and had_file:
+                allowed = set(catalogued)       # only re-reads the existing catalogue
+            empty = {r for r in range(nres)
+                     if not spec['restarts'][r]['its'].get(min(spec['levels']))}
+            have = {int(r) for r in last if r != 'overall'}
+            if have - empty != allowed - empty:
+                common.add_violation(res, f"{op}: wrong set of restarts catalogued"
+                                          f" (skip_last={skip_last})",
+                                     {"catalogued": sorted(have), "expected": sorted(allowed),
+                                      "sequence": seq, "active_link": spec.get('active_link')})
+                return
+            catalogued = set(have)
             # ---- catalogue vs truth and vs its own file
             got = norm_cat(last)
             for r, entry in got.items():
